@@ -241,3 +241,14 @@ def coalesce_to_none(ctx, R, quals, why):
         else:
             out.append(ctx.ok(R, fi, fi.node, "a computed selection is passed on unchanged (an empty one stays empty)", construct=k, nontrivial=False))
     return out
+
+
+def no_memoisation_modules(ctx, R, modules, why):
+    """Aggregated form of no_memoisation over all functions of the given modules."""
+    quals = [f.qual for f in ctx.prog.funcs.values() if f.module.name in modules]
+    res = no_memoisation(ctx, R, quals, why)
+    bad = [r for r in res if r.status != "OK"]
+    if bad:
+        return bad
+    return [ctx.ok(R, None, None, f"{len(quals)} functions of {', '.join(sorted(modules))}: none is memoised and none stores results in module-level containers",
+                   construct="memo|" + ",".join(sorted(modules)))]
